@@ -20,8 +20,9 @@ type SimDisk struct {
 	loc common.Location
 
 	mu  sync.Mutex
-	Log []WriteGroup // global order of durable mutations
-	Rec bool         // record the log
+	ID  int
+	G   *GlobalLog // shared by the disks of one node: global order of durable mutations
+	Rec bool       // record into G
 	// FailBatchAt: if >0, the n-th batch commit from now returns an error with nothing applied.
 	FailBatchAt int
 	Failed      int
@@ -51,13 +52,23 @@ func NewMemSimDisk(loc common.Location, logger *log.Logger) *SimDisk {
 
 func (d *SimDisk) Location() common.Location { return d.loc }
 
+// GlobalLog is the ordered write-op log of all disks of one simulated process.
+type GlobalLog struct {
+	mu      sync.Mutex
+	Entries []LogEntry
+}
+type LogEntry struct {
+	Disk int
+	WriteGroup
+}
+
 func (d *SimDisk) record(g WriteGroup) {
-	if !d.Rec {
+	if !d.Rec || d.G == nil {
 		return
 	}
-	d.mu.Lock()
-	d.Log = append(d.Log, g)
-	d.mu.Unlock()
+	d.G.mu.Lock()
+	d.G.Entries = append(d.G.Entries, LogEntry{d.ID, g})
+	d.G.mu.Unlock()
 }
 
 func (d *SimDisk) Put(k, v []byte) error {
@@ -125,14 +136,18 @@ func (b *simBatch) Write() error {
 // Replay must hand the *inner* ops to w (HookedBatch etc. rely on it).
 func (b *simBatch) Replay(w ethdb.KeyValueWriter) error { return b.Batch.Replay(w) }
 
-// ImageAfter materialises, in a fresh in-memory engine, base plus the first n groups of the log.
-func ImageAfter(base map[string][]byte, logg []WriteGroup, n int, loc common.Location, logger *log.Logger) *SimDisk {
+// ImageAfter materialises, in a fresh in-memory engine, disk id's base image plus its share of the
+// first n entries of the global log: the durable state after a process crash at that instant.
+func ImageAfter(base map[string][]byte, g []LogEntry, n int, id int, loc common.Location, logger *log.Logger) *SimDisk {
 	d := NewMemSimDisk(loc, logger)
 	for k, v := range base {
 		d.Database.Put([]byte(k), v)
 	}
-	for i := 0; i < n && i < len(logg); i++ {
-		for _, op := range logg[i].Ops {
+	for i := 0; i < n && i < len(g); i++ {
+		if g[i].Disk != id {
+			continue
+		}
+		for _, op := range g[i].Ops {
 			if op.Del {
 				d.Database.Delete(op.K)
 			} else {
